@@ -286,6 +286,9 @@ def ods_rows(source_ods_path, sheet=1):
                 cell_value = ""
             else:
                 cell_value = text_p.text
+                if (cell_value is None) and (len(text_p) == 0):
+                    # An empty paragraph.
+                    cell_value = ""
             row.extend([cell_value] * repeated_count)
             location.advance_cell(repeated_count)
         yield row
